@@ -2914,7 +2914,7 @@ impl BytecodeVM {
                             // Check if property is configurable before deleting
                             {
                                 let obj_borrowed = obj_ref.borrow();
-                                if let Some(prop) = obj_borrowed.properties.get(&prop_key)
+                                if let Some(prop) = obj_borrowed.get_own_property_with_exotic(&prop_key)
                                     && !prop.configurable()
                                 {
                                     return Err(JsError::type_error(format!(
@@ -2943,6 +2943,16 @@ impl BytecodeVM {
                             }
                             self.set_reg(dst, JsValue::Boolean(true));
                         }
+                    }
+                    // The characters and the length of a string are not configurable
+                    JsValue::String(text)
+                        if match interp.property_key_from_value(key_val) {
+                            PropertyKey::Index(i) => (i as usize) < text.as_str().chars().count(),
+                            PropertyKey::String(name) => name.as_str() == "length",
+                            PropertyKey::Symbol(_) => false,
+                        } =>
+                    {
+                        return Err(JsError::type_error("Cannot delete property of a string"));
                     }
                     // Primitives: delete returns true
                     JsValue::Number(_)
@@ -2984,7 +2994,7 @@ impl BytecodeVM {
                             // Check if property is configurable before deleting
                             {
                                 let obj_borrowed = obj_ref.borrow();
-                                if let Some(prop) = obj_borrowed.properties.get(&prop_key)
+                                if let Some(prop) = obj_borrowed.get_own_property_with_exotic(&prop_key)
                                     && !prop.configurable()
                                 {
                                     return Err(JsError::type_error(format!(
@@ -2997,6 +3007,9 @@ impl BytecodeVM {
                             obj_ref.borrow_mut().properties.remove(&prop_key);
                             self.set_reg(dst, JsValue::Boolean(true));
                         }
+                    }
+                    JsValue::String(_) if key.as_str() == "length" => {
+                        return Err(JsError::type_error("Cannot delete property of a string"));
                     }
                     // Primitives: delete returns true
                     JsValue::Number(_)
